@@ -19,7 +19,8 @@ use vswarm::{
 #[behaviour(prelude = "libp2p_swarm::derive_prelude")]
 pub struct Three {
     pub b1: ProbeBehaviour,
-    pub b2: ProbeBehaviour,
+    /// the second field is wrapped in an (enabled) Toggle: its denials and events must pass through unchanged
+    pub b2: libp2p_swarm::behaviour::toggle::Toggle<ProbeBehaviour>,
     pub b3: ProbeBehaviour,
 }
 
@@ -87,12 +88,12 @@ impl Suite for Three {
     fn build(ids: &Ids, log: &Log, _cfg: &Value) -> Self {
         Three {
             b1: ProbeBehaviour::new("b1", ids.clone(), log.clone()),
-            b2: ProbeBehaviour::new("b2", ids.clone(), log.clone()),
+            b2: Some(ProbeBehaviour::new("b2", ids.clone(), log.clone())).into(),
             b3: ProbeBehaviour::new("b3", ids.clone(), log.clone()),
         }
     }
     fn probes(&self) -> Vec<&ProbeBehaviour> {
-        vec![&self.b1, &self.b2, &self.b3]
+        vec![&self.b1, self.b2.as_ref().expect("toggle enabled"), &self.b3]
     }
 }
 
@@ -118,6 +119,7 @@ where
 {
     pub fn new(cfg: &Value) -> Run<B> {
         let rc = RigCfg {
+            manual_exec: cfg.get("manual").and_then(|x| x.as_bool()).unwrap_or(false),
             npeers: 4,
             dial_concurrency: cfg.get("concurrency").and_then(|x| x.as_u64()).unwrap_or(8) as u8,
             idle_timeout_ms: cfg.get("idle_ms").and_then(|x| x.as_u64()).unwrap_or(0),
@@ -366,6 +368,25 @@ where
                     Err(m) => self.events.push(json!({"e": "panic", "msg": m})),
                 }
             }
+            "pollSwarm" => {
+                // manual executor: only the Swarm is polled, connection tasks stay frozen
+                let r = vcommon::guard(|| self.rig.poll_swarm_only());
+                self.flush();
+                match r {
+                    Ok(n) => self.events.push(json!({"e": "polled", "n": n, "q": false})),
+                    Err(m) => self.events.push(json!({"e": "panic", "msg": m})),
+                }
+            }
+            "runTask" => {
+                let live = self.rig.live_tasks();
+                let k = vcommon::n(c, "k") as usize;
+                let r = if live.is_empty() { Ok((false, false)) } else { let t = live[k % live.len()]; vcommon::guard(|| self.rig.run_task(t)) };
+                self.flush();
+                match r {
+                    Ok((ex, fin)) => self.events.push(json!({"e": "ranTask", "k": k, "existed": ex, "finished": fin})),
+                    Err(m) => self.events.push(json!({"e": "panic", "msg": m})),
+                }
+            }
             "pollRaw" => {
                 let r = vcommon::guard(|| self.rig.poll_raw());
                 self.flush();
@@ -515,9 +536,12 @@ where
                 let t = if r.gen_bool(0.5) || nconn == 0 { json!({"any": r.gen_range(1..=2)}) } else { let id = r.gen_range(1..=nconn as i64); json!({"one": id, "peer": r.gen_range(1..=2)}) };
                 return json!({"c": "emit", "targets": [t]});
             }
+            79..=84 if run.rig.exec.is_some() => return if r.gen_bool(0.5) { json!({"c": "pollSwarm"}) } else { json!({"c": "runTask", "k": r.gen_range(0..8)}) },
             79..=90 => return json!({"c": "poll"}),
             91..=95 => return json!({"c": "poll1"}),
-            96..=99 => return json!({"c": "pollRaw"}),
+            96..=99 if !run.rig.exec.is_some() => return json!({"c": "pollRaw"}),
+            96..=97 => return json!({"c": "pollSwarm"}),
+            98..=99 => return json!({"c": "runTask", "k": r.gen_range(0..8)}),
             _ => {}
         }
     }
@@ -559,7 +583,7 @@ pub fn main(a: &vcommon::Args) {
             let mut r = vcommon::rng(seed);
             for _ in 0..runs {
                 let deny_p = [0.0, 0.0, 0.1, 0.3][r.gen_range(0..4)];
-                let cfg = json!({"concurrency": r.gen_range(1..=3), "maxconn": maxconn, "close_polls": r.gen_range(1..=3)});
+                let cfg = json!({"concurrency": r.gen_range(1..=3), "maxconn": maxconn, "close_polls": r.gen_range(1..=3), "manual": r.gen_bool(0.3)});
                 let mut run: Run<Three> = Run::new(&cfg);
                 let mut sched = vec![];
                 for _ in 0..steps {
